@@ -41,6 +41,10 @@ inductive Prim
 structure CommitMethod where
   idle : List Prim
   deferred : List Prim
+  /-- `__enter__` keeps the count of commits an enclosing block has deferred: `max(1, self._pending_commits)` -/
+  enterKeeps : Bool := true
+  /-- `__exit__` takes the counter to 0 before it calls `self.commit()` (otherwise that commit is deferred again) -/
+  exitResetsFirst : Bool := true
   deriving DecidableEq, Repr
 
 /-- an `insert_*` method: one primitive list per control-flow path -/
@@ -123,10 +127,14 @@ def stepPrim (C : CommitMethod) (c : Call) (p : Prim) (db : Db) : Db × Status :
   | .connCommit => ({ db with durable := db.work }, .running)
   | .incPending => ({ db with defer := db.defer + 1 }, .running)
   | .ret => ({ db with acks := db.acks ++ [c.id] }, .returned)
-  | .enter => ({ db with defer := max 1 db.defer }, .running)
+  | .enter => ({ db with defer := if C.enterKeeps then max 1 db.defer else 1 }, .running)
   | .exit =>
-    let db' := { db with defer := 0 }
-    (if db.defer > 1 then doCommit C db' else db', .running)
+    if C.exitResetsFirst then
+      let db' := { db with defer := 0 }
+      (if db.defer > 1 then doCommit C db' else db', .running)
+    else
+      let db1 := if db.defer > 1 then doCommit C db else db
+      ({ db1 with defer := 0 }, .running)
   | .exitExc => ({ db with defer := 0 }, .running)
   | .kill => (recover db, .running)
 
@@ -221,6 +229,9 @@ def wfInsertPath (ops : List Prim) : Bool :=
 
 def wfCommit (C : CommitMethod) : Bool :=
   C.idle == [.connCommit, .ret] && C.deferred == [.incPending, .ret]
+
+/-- `with db:` blocks nest and flush: `__enter__` keeps the enclosing count, `__exit__` resets before committing -/
+def wfBatch (C : CommitMethod) : Bool := C.enterKeeps && C.exitResetsFirst
 
 /-- the INSERT of every method binds every primary-key column of its table -/
 def bindsPk (tables : List TableInfo) (m : Method) : Bool :=
